@@ -12,8 +12,8 @@ THEOREMS = ['Ymq.C03.rho_fallthrough_panics', 'Ymq.C03.factor_total_partial', 'Y
 PROFILES = ["release", "chk"]
 TIMEOUT = 60.0
 RULE = ("every selector (inside its size precondition) x {0..300, products of 2-4 primes just above 199, 15-40 bit composites, "
-        "semiprimes of every bit length 41..64, 2^64 +- small, 2^128 +- small, all-ones words, 495-512-bit primes / prime squares / "
-        "smooth*prime, 513+ bit (must be refused)}; both build profiles; panic / abort / no answer within the watchdog = crash; "
+        "semiprimes of every bit length 41..64, 2^64 +- small, 2^128 +- small, all-ones words, 495-510-bit primes / prime squares / "
+        "smooth*prime, 511+ bit (must be refused)}; both build profiles; panic / abort / no answer within the watchdog = crash; "
         "non-trivial = n > 3; distinct by request line")
 MODELLED = ["panic sites of lib.rs (asserts, unreachable!, division by zero, residue.is_one()) in Ymq/Model/Factor.lean; the replay "
             "classifies each observed crash as predicted-by-model (inside lib.rs) or outside the model (inside a sub-algorithm)"]
@@ -79,14 +79,14 @@ def cases(tier, rng, extended=False):
                 algs = [a for a in algs if a in ("auto", "siqs", "ecm128")]
             yield from emit(n, algs, tag="word-boundary")
     # near the size limit and above it
-    for bits in (495, 500, 505, 511, 512):
+    for bits in (495, 500, 505, 509, 510):
         p = gen.rand_prime(rng, bits)
         yield from emit(p, ["auto", "siqs", "ecm", "pm1"], tag="near-limit", timeout=120)
         q = gen.rand_prime(rng, bits // 2)
         yield from emit(q * q, ["auto", "siqs"], tag="near-limit", timeout=120)
         r = gen.rand_prime(rng, bits - 12)
         yield from emit(r * 211 * 2 * 3, ["auto"], tag="near-limit", timeout=120)
-    for bits in (513, 520, 600, 1000, 1024):
+    for bits in (511, 512, 513, 520, 600, 1000, 1024):
         n = (1 << (bits - 1)) + rng.getrandbits(bits - 2) * 2 + 1
         yield from emit(n, ["auto", "siqs", "ecm", "pm1", "qs", "mpqs"], tag="above-limit")
         yield from emit(1 << (bits - 1), ["auto"], tag="above-limit")
@@ -97,7 +97,7 @@ def oracle(case, ans):
     kind = fc.parse_answer(ans)[0]
     if kind in ("ok", "failure"):
         if case.tag == "above-limit" and kind != "failure":
-            return f"input above 512 bits was not refused ({kind})"
+            return f"input above 510 bits was not refused ({kind})"
         return None
     return f"factor() did not return: {kind}"
 
